@@ -737,6 +737,10 @@ pub(crate) fn twist_point_add_full(p1: &TwistPoint, p2: &TwistPoint) -> TwistPoi
 }
 
 pub(crate) fn sm9_u256_pairing(q: &TwistPoint, p: &Point) -> Fp12 {
+    // e(P, O) = e(O, Q) = 1
+    if q.z.is_zero() || p.is_zero() {
+        return Fp12::one();
+    }
     let abits: Vec<char> = "00100000000000000000000000000000000000010000101100020200101000020"
         .chars()
         .collect();
